@@ -257,6 +257,8 @@ def analyse_should_format_node(M, ses, rep):
                     "lines": [[LINES[ev(z3.Int(f"lc{k}_{j}")).as_long()] for j in range(min(K_LINES, ev(z3.Int(f"nlines{k}")).as_long()))]
                               for k in range(min(K_TOKENS, ev(z3.Int("ntok")).as_long()))]}
             kind = "range" if "NotInRange" in (info["got"], info["want"]) else "ignore"
+            if info["want"] == "Skip" and info["got"] == "NotInRange":
+                kind = "ignored-in-range"       # an ignored node treated as merely out of range: its nested blocks are descended into (C08 and C09)
             flagged.append((f"should_format_node/path{pi}/result=oracle", f"should_format_node returns {info['got']}, expected {info['want']}", kind, info))
     rep.bounds["should_format_node_paths"] = n
     rep.bounds["comment_tokens"], rep.bounds["lines_per_comment"] = K_TOKENS, K_LINES
@@ -349,6 +351,10 @@ def analyse_toggle(M, ses, rep):
     return flagged
 
 
+def same_obj(a, b):
+    return a is b or (isinstance(a, Lazy) and isinstance(b, Lazy) and a.oid == b.oid)
+
+
 def analyse_format_block(M, ses, rep):
     """C: one loop iteration + the last-statement tail. A statement that is Skip/NotInRange is pushed unchanged with its semicolon."""
     flagged = []
@@ -426,8 +432,30 @@ def analyse_format_block(M, ses, rep):
                         flagged.append((f"format_block/stmt/path{pi}/normal-statement-is-post-processed",
                                         "a statement that should be formatted is treated as ignored / out of range by format_block", "both",
                                         {"which": "Normal", "what": "post-processing skipped"}))
-        # last statement
+        # the ignore state is threaded: every statement is toggled on the context its predecessor left, and is formatted under ITS toggled context
         lfmt = find_calls(o.trace, lambda x: x.split("::")[-1] == "format_last_stmt")
+        chain_ok, why = True, ""
+        prev = None
+        snapped = lambda pred: [(t[1], (t[4] if len(t) > 4 else t[2]), t[3]) for t in o.trace if t[0] == "havoc" and pred(t[1])]     # arguments AT CALL TIME
+        togs = snapped(lambda x: x.endswith("check_toggle_formatting"))
+        for i_, tg in enumerate(togs):
+            self_ctx = deref_val(ex, st, tg[1][0])
+            if prev is not None and not same_obj(self_ctx, prev):
+                chain_ok, why = False, f"check_toggle_formatting #{i_} does not start from the context the previous statement left"
+            prev = tg[2]
+        for label in ("format_stmt", "format_last_stmt"):
+            for c_ in snapped(lambda x, label=label: x.split("::")[-1] == label):
+                cx = deref_val(ex, st, c_[1][0])
+                node_ = deref_val(ex, st, c_[1][1])
+                mine = [tg for tg in togs if same_obj(deref_val(ex, st, tg[1][1]), node_)]
+                if not mine or not same_obj(cx, mine[-1][2]):
+                    chain_ok, why = False, f"{label} does not receive the context toggled by its own statement's comments"
+        if tog and (fmt or lfmt):
+            r, m = ses.obligation(f"format_block/path{pi}/ignore-state-is-threaded", list(o.pc), z3.BoolVal(not chain_ok),
+                                  "ctx = ctx.check_toggle_formatting(stmt) before each statement, and that ctx formats it")
+            if r == "sat":
+                flagged.append((f"format_block/path{pi}/ignore-state-is-threaded", why, "toggle", {"last": bool(lfmt) and "last" in why, "what": why}))
+        # last statement
         wl = find_calls(o.trace, lambda x: x.endswith("Block::with_last_stmt"))
         if lfmt and len(tog) >= 1 and wl:
             ctxl = tog[-1][2]
